@@ -1,6 +1,7 @@
 package props
 
 import (
+	"bytes"
 	"encoding/hex"
 	"fmt"
 	"math/big"
@@ -588,6 +589,11 @@ func runBridgeMachine(c bmCase, which string, rec *ev.Recorder) *Failure {
 					fee += 60
 				}
 			}
+			if op.EVM && op.Fee%5 == 0 {
+				// the precompile door accepts a transfer without a bridge fee (the Cosmos message does not)
+				fee = 0
+				s.labels["zero-fee-send"] = true
+			}
 			if op.Idx == 7 && !(op.EVM && t.Kind == sim.KindFX && op.Flag) {
 				// a large transfer: a quarter to all of what the sender holds in the form this door takes
 				bal := f.App.BankKeeper.GetBalance(sctx, acc.Acc(), t.Base).Amount.BigInt()
@@ -781,15 +787,19 @@ func runBridgeMachine(c bmCase, which string, rec *ev.Recorder) *Failure {
 			amt := op.Amt
 			var ok bool
 			to := sim.ExtAddrN(ch, "callto", op.Idx)
+			// call data and memo the creator supplies: empty / short / long, chosen independently
+			callData := [][]byte{{1, 2, 3}, {}, bytes.Repeat([]byte{0xab, 0x00}, 40)}[op.Idx%3]
+			callMemo := [][]byte{{}, {0xaa}, bytes.Repeat([]byte{0x00, 0xcd}, 33)}[int(op.Fee)%3]
+			s.labels[fmt.Sprintf("bridgecall-data%d-memo%d", len(callData), len(callMemo))] = true
 			if op.EVM {
 				toHex := crosschaintypes.ExternalAddrToHexAddr(ch, to)
-				data, err := crosschaintypes.GetABI().Pack("bridgeCall", ch, acc.Hex(), []common.Address{t.ERC20}, []*big.Int{big.NewInt(amt)}, toHex, []byte{1, 2, 3}, big.NewInt(0), []byte{})
+				data, err := crosschaintypes.GetABI().Pack("bridgeCall", ch, acc.Hex(), []common.Address{t.ERC20}, []*big.Int{big.NewInt(amt)}, toHex, callData, big.NewInt(0), callMemo)
 				if err != nil {
 					return failf("harness", "pack: %v", err)
 				}
 				ok = f.EthTx(sctx, acc, &sim.CrosschainAddr, nil, data, 3_000_000).Success()
 			} else {
-				ok = f.RunMsg(sctx, &crosschaintypes.MsgBridgeCall{ChainName: ch, Sender: acc.Acc().String(), Refund: acc.Acc().String(), To: to, Coins: sdk.NewCoins(sdk.NewCoin(t.Base, sdkmath.NewInt(amt))), Data: "010203", Value: sdkmath.ZeroInt()}).OK()
+				ok = f.RunMsg(sctx, &crosschaintypes.MsgBridgeCall{ChainName: ch, Sender: acc.Acc().String(), Refund: acc.Acc().String(), To: to, Coins: sdk.NewCoins(sdk.NewCoin(t.Base, sdkmath.NewInt(amt))), Data: hex.EncodeToString(callData), Memo: hex.EncodeToString(callMemo), Value: sdkmath.ZeroInt()}).OK()
 			}
 			if ok {
 				if which == "C06" && !s.observedHeight[ch] && lastObsHeightPre == 0 {
@@ -810,9 +820,9 @@ func runBridgeMachine(c bmCase, which string, rec *ev.Recorder) *Failure {
 						return failf("C05/call-nonce-reused", "%s: new call nonce %d is not larger than %s", desc, nc.Nonce, key)
 					}
 				}
-				if len(nc.Tokens) != 1 || nc.Tokens[0].Contract != t.Contracts[ch] || !nc.Tokens[0].Amount.Equal(sdkmath.NewInt(amt)) || nc.To != to || strings.ToLower(nc.Data) != "010203" ||
+				if len(nc.Tokens) != 1 || nc.Tokens[0].Contract != t.Contracts[ch] || !nc.Tokens[0].Amount.Equal(sdkmath.NewInt(amt)) || nc.To != to || strings.ToLower(nc.Data) != hex.EncodeToString(callData) || strings.ToLower(nc.Memo) != hex.EncodeToString(callMemo) ||
 					nc.Refund != crosschaintypes.ExternalAddrToStr(ch, acc.Hex().Bytes()) {
-					return failf("C05/call-fields", "%s: stored call %+v differs from what the creator supplied (token %s amount %d to %s data 010203 refund %s)", desc, nc, t.Name, amt, to, acc.Hex())
+					return failf("C05/call-fields", "%s: stored call %+v differs from what the creator supplied (token %s amount %d to %s data %x memo %x refund %s)", desc, nc, t.Name, amt, to, callData, callMemo, acc.Hex())
 				}
 				s.calls[bmKey(ch, nc.Nonce)] = &bmCall{Chain: ch, Nonce: nc.Nonce, Sender: u, Tok: ti, Amt: amt, Timeout: nc.Timeout, State: "open", EVM: op.EVM}
 				expect[[2]int{u, ti}] -= amt
